@@ -3,7 +3,7 @@ import Op2Model.Bmp
 /-!
 # Inversion lemmas for parsers (what success of a composite parser says about its parts) and small facts about `Out`
 -/
-namespace Op2.Parser
+namespace Op2.Parser.BmpInv
 open Op2
 
 theorem bind_ok {α β : Type} {p : Parser α} {f : α → Parser β} {xs : Bytes} {r : β × Bytes} :
@@ -75,4 +75,4 @@ theorem many_consumes {α : Type} {p : Parser α} {k : Nat}
     have a2 := many_consumes hk n h3
     rw [a1, a2, Nat.add_mul]; omega
 
-end Op2.Parser
+end Op2.Parser.BmpInv
